@@ -235,6 +235,13 @@ def crash_oracle(res):
     hits = []
     b = res["backend"]
     n = len(res["ops"])
+    # the report file itself is never opened for writing: it only ever appears by a rename (between "opened for truncation" and
+    # "content complete" there is an instant at which the file is empty or partial, whether or not a crash point falls there)
+    for k, op in enumerate(res["ops"]):
+        if op[0].startswith("open_") and op[1] == res["final"]:
+            hits.append(("crash:%s:report-file-written-in-place" % b,
+                         "crash point %d : the report file is opened for writing in place (%s) instead of being installed by a rename" % (k, op[0])))
+            break
     for st in res["states"]:
         k = st["k"]
         before = res["ops"][k - 1][0] if k > 0 else "start"
@@ -565,7 +572,26 @@ def gen_crash_payloads(run, n):
         old = G.gen_report(run.rng, size="small", strings=strings, unfinished=0.6) if i % 2 == 0 else None
         for b in ("json", "xml", "junit"):
             out.append({"backend": b, "old": old, "new": new})
+            if i % 3 == 0 and OTHER_FS_TMPDIR:
+                out[-1]["tmpdir"] = OTHER_FS_TMPDIR
     return out
+
+
+def _other_fs_tmpdir():
+    """A writable directory on another file system than the default temporary directory (where the report directories of the
+    crash experiment are made), or None."""
+    import tempfile
+    try:
+        here = os.stat(tempfile.gettempdir()).st_dev
+        for cand in ("/dev/shm", "/run/shm", "/var/tmp", "/tmp"):
+            if os.path.isdir(cand) and os.access(cand, os.W_OK) and os.stat(cand).st_dev != here:
+                return cand
+    except OSError:
+        pass
+    return None
+
+
+OTHER_FS_TMPDIR = _other_fs_tmpdir()
 
 
 def _strip_deps(pd, removed_prefixes):
@@ -766,6 +792,8 @@ def check(run):
     for p, res in zip(payloads, cres):
         run.evaluations += 1
         run.count("crash:" + p["backend"] + (":over-old" if p["old"] else ":fresh"))
+        if p.get("tmpdir"):
+            run.count("crash_runs_with_the_temporary_directory_on_another_file_system")
         if res.get("save_error") and not res.get("setup_error"):
             run.violation("save-raises:%s" % p["backend"], "saving a report with the %s backend raises %s" % (p["backend"], res["save_error"]),
                           {"kind": "crash", "backend": p["backend"], "old": p["old"], "new": p["new"], "k": len(res.get("ops") or [])})
